@@ -902,6 +902,10 @@ func execC08(line string, oracle bool) string {
 		return execVb(line, oracle)
 	case "conc":
 		return execConc(w, line, "C08")
+	case "fb":
+		return execFb(line, oracle)
+	case "vf":
+		return execVf(line, oracle)
 	}
 	return "bad-op"
 }
@@ -1111,11 +1115,13 @@ func genC08(tier string, rng *xvlib.Rng, run func(string, bool)) {
 			}
 		}
 	}
+	// 5. crypto faults under Format*Block / VerifyBlock (fault.go)
+	genFault(tier, rng, run)
 	// observations: formatted blocks outside the precondition of formatted_verifies
 	run(fmt.Sprintf("vb %s m=none", base{n: 0, qc: -1, ph: 1}), true)
 	run(fmt.Sprintf("vb %s m=none", base{n: 2, qc: -1, ph: 0}), true)
 	out.Stats.Exhaustive = false
-	out.Stats.Rule = fmt.Sprintf("leaf: every n ≤ %d (+ neighbours of 2^10..2^12); shape: whole MakeMerkleTree array for every n ≤ 300; pre: %d random header field assignments (extracted schema bytes, double-SHA-256 checked against MakeBlockID); vb: node-formatted blocks with n ∈ %v transactions × %d parameter draws (justify none/0/1/3 signatures, 0–3 failed txs, target bits 0/5/-3/1, 3 proposer keys) × every single mutation of each header field, justify/failed-tx structure, body (drop/insert/duplicate/swap/alter/nil/truncate/shift at every position for n ≤ 9, else first/last/random) and signature, each alone and followed by the recomputations a forger can do (id, count, root; the leaves / the k lowest levels / all nodes below the root of the carried merkle tree, which is outside id and signature); the carried tree alone (leaves swapped / doubled / altered, tree dropped); blocks that may still pass are also confirmed on a second ledger and read back from storage (stored=1); a case is non-trivial unless it is leaf 0 / shape 0 / an unmutated block; distinct by op line", maxLeaf, nPre, ns, perN)
+	out.Stats.Rule = fmt.Sprintf("leaf: every n ≤ %d (+ neighbours of 2^10..2^12); shape: whole MakeMerkleTree array for every n ≤ 300; pre: %d random header field assignments (extracted schema bytes, double-SHA-256 checked against MakeBlockID); vb: node-formatted blocks with n ∈ %v transactions × %d parameter draws (justify none/0/1/3 signatures, 0–3 failed txs, target bits 0/5/-3/1, 3 proposer keys) × every single mutation of each header field, justify/failed-tx structure, body (drop/insert/duplicate/swap/alter/nil/truncate/shift at every position for n ≤ 9, else first/last/random) and signature, each alone and followed by the recomputations a forger can do (id, count, root; the leaves / the k lowest levels / all nodes below the root of the carried merkle tree, which is outside id and signature); the carried tree alone (leaves swapped / doubled / altered, tree dropped); blocks that may still pass are also confirmed on a second ledger and read back from storage (stored=1); fb / vf: Format(Miner)Block and VerifyBlock on a ledger whose crypto client fails its i-th request (every request position, every entry point; vf over signature / key / proposer / body / header mutants); a case is non-trivial unless it is leaf 0 / shape 0 / an unmutated block; distinct by op line", maxLeaf, nPre, ns, perN)
 	out.Stats.Notes = append(out.Stats.Notes,
 		"observations (distribution keys observation:*): fields outside the id — Height, FailedTxs keys, TargetBits ≤ 0 — and two-field boundary shifts (jshift, fshift) are accepted unchanged; the carried MerkleTree is outside the id but must be the tree of the body (mtree: its top node altered, rejected since the repair); a consistent block re-issued under another proposer+key (takeover) verifies (proposer entitlement is C16); transaction content with unchanged Txid (txcontent) is not seen by VerifyBlock (txid recomputation is C07); a formatted block with 0 transactions or empty PreHash does not verify",
 		"not covered: consensus CheckMinerMatch wrappers (C16 / C14)")
